@@ -39,17 +39,20 @@ def gen_cases(tier, seed):
     cases = []
     for i in range(n):
         r = vlib.case_rng(seed, PID, i)
-        d = gdiff.gen_diff(r, nsec=r.randint(1, 3), log=False)
+        # one stream in eight is plain `diff -u` output, whose removed / added lines may begin with `-- ` / `++ `
+        sbs = r.random() < 0.45
+        diffu = (not sbs) and r.random() < 0.22
+        d = gdiff.gen_diff(r, nsec=r.randint(1, 3), log=False, **({"kind": "diffu"} if diffu else {}))
         for s in d["sections"]:
             for h in s["hunks"]:
                 nb = []
                 for k, t in h["body"]:
                     # the token first, so that it is on the first row of a wrapped line
-                    tok = [w for w in t.replace("\t", " ").split(" ") if w.startswith("T") and w.endswith("q")][0]
-                    rest = t.replace(tok, "", 1).replace("‹", "<").replace("«", "<")
-                    nb.append((k, tok + " " + rest.strip(" ")))
+                    tok = re.search(r"T\d+q", t).group(0)
+                    lead = t[:3] if (diffu and t[:3] in ("-- ", "++ ")) else ""
+                    rest = t[len(lead):].replace(tok, "", 1).replace("‹", "<").replace("«", "<")
+                    nb.append((k, lead + tok + " " + rest.strip(" ")))
                 h["body"] = nb
-        sbs = r.random() < 0.45
         if sbs and r.random() < 0.6:
             # removed / added runs of similar lines, so that side-by-side pairs them on one row
             for s_ in d["sections"]:
@@ -114,7 +117,7 @@ def expected_numbers(d):
         for h in s["hunks"]:
             o, n = h["old_start"], h["new_start"]
             for k, t in h["body"]:
-                tok = [w for w in t.replace("\t", " ").split(" ") if w.startswith("T") and w.endswith("q")][0]
+                tok = re.search(r"T\d+q", t).group(0)
                 if k == "-":
                     exp[tok] = ("-", o, None); o += 1
                 elif k == "+":
@@ -186,6 +189,7 @@ def main(tier, replay=None):
         if not c["sbs"]:
             rx = re.compile(FORMATS[c["fmt"]][2])
             seq = []   # gutters of body rows in order, for the model correspondence
+            seen_u = set()
             for row in rows:
                 m = rx.match(row)
                 if not m:
@@ -197,9 +201,14 @@ def main(tier, replay=None):
                         seq.append((nm, np_))
                     continue
                 k, o, n = exp[toks[0]]
+                seen_u.add(toks[0])
                 seq.append((nm, np_))
                 if (nm, np_) != (o, n):
                     why.append(f"line {toks[0]} ({k!r}) shows old/new numbers {nm}/{np_}, true numbers {o}/{n}")
+            missing = [t for t in exp if t not in seen_u]
+            if missing:
+                k, o, n = exp[missing[0]]
+                why.append(f"line {missing[0]} ({k!r}, old/new number {o}/{n}) is not shown in a numbered row ({len(missing)} such lines)")
             # correspondence: per hunk, the model on the painting order
             i = 0
             for s in d["sections"]:
